@@ -25,7 +25,27 @@ async def realise(ctx, sq, n, scen, rnd, big):
             await oc.send(peers.response_head(200, 'OK', [('Content-Length', '2'), ('Cache-Control', 'no-store'), ('X-Verif-Origin', '1')]) + b'ok')
             return False
         return True
-    o = await peers.Origin(rec, responder).start()
+    o = peers.Origin(rec, responder)
+    second = {}
+    if par.get('early'):
+        async def on_head(qh, oc):
+            if qh.target.endswith('/second'):
+                return
+            # answer at once, completely, keep-alive: only the request is unfinished
+            await oc.send(peers.response_head(200, 'OK', [('Content-Length', '2'), ('Cache-Control', 'no-store'), ('X-Verif-Origin', '1')]) + b'ok')
+        o.on_head = on_head
+        plain = responder
+
+        async def responder2(q, oc):
+            if q.target.endswith('/second'):
+                second['arrived'] = True
+                await oc.send(peers.response_head(200, 'OK', [('Content-Length', '2'), ('Cache-Control', 'no-store'), ('X-Verif-Origin', '1')]) + b'ok')
+                return False
+            got['q'] = q
+            done.set()
+            return True
+        o.responder = responder2
+    await o.start()
     url = 'http://127.0.0.1:%d/c02/%d' % (o.port, n)
     c = peers.Client(rec, sq.port, name='c%d' % n)
     await c.open()
@@ -83,6 +103,15 @@ async def realise(ctx, sq, n, scen, rnd, big):
             if par['cframing'] == 'length' and pos == total:
                 produced['fin'] = 'complete'     # every declared byte was written: the message is complete whatever happens next
             await asyncio.sleep(0.03)
+            if par.get('early'):
+                # the client is stuck mid-body; the origin has answered; somebody else asks the same origin for something
+                try:
+                    await asyncio.wait_for(c.reader.readuntil(b'\r\n\r\n'), 2.0)      # the early 200 reaches the stuck client
+                except Exception:
+                    pass
+                r2 = await peers.simple_get(rec, sq.port, url + '/second', vid='%d.second' % n, timeout=6.0)
+                second['status'] = r2.status
+                await asyncio.sleep(0.05)
             c.close()
         else:
             if par['cframing'] == 'chunked':
@@ -106,7 +135,7 @@ async def realise(ctx, sq, n, scen, rnd, big):
         both = q.head.has('Content-Length') and q.head.has('Transfer-Encoding')
     else:
         both = False
-    return {'ev': ev, 'scen': par, 'sizes': usizes, 'seg': seg, 'pred_uframing': scen['uframing'], 'arrived': q is not None, 'both_cl_te': both, 'n': n}
+    return {'ev': ev, 'scen': par, 'sizes': usizes, 'seg': seg, 'pred_uframing': scen['uframing'], 'arrived': q is not None, 'both_cl_te': both, 'n': n, 'second': dict(second)}
 
 
 def run(ctx):
@@ -120,7 +149,7 @@ def run(ctx):
         keep, seen = [], set()
         for s in scens:
             p = s['par']
-            k = (p['cframing'], p['abortAt'] >= 0, p['expect'], p['ext'], p['trailers'], min(p['units'], 2), p['method'] if p['units'] == 0 else '')
+            k = (p['cframing'], p['abortAt'] >= 0, p['expect'], p['ext'], p['trailers'], min(p['units'], 2), p['method'] if p['units'] == 0 else '', p['early'])
             if k not in seen:
                 seen.add(k)
                 keep.append(s)
@@ -152,6 +181,8 @@ def run(ctx):
             if len(ctx.drift) < 5:
                 ctx.drift.append('upstream framing %s, ReqRelayImpl predicts %s for %s' % (h['ev'][1]['framing'], h['pred_uframing'], json.dumps(h['scen'])))
     ctx.cov['impl_distinct'] = len({json.dumps([h['scen'], h['sizes'], h['seg']], sort_keys=True) for h in hist})
+    ctx.cov['early_origin_reply_scenarios'] = sum(1 for h in hist if h['scen'].get('early'))
+    ctx.cov['early_origin_reply_followup_served'] = sum(1 for h in hist if h['scen'].get('early') and h['second'].get('arrived'))
     ctx.cov['reached_origin'] = len(with_consume)
     ctx.cov['complete_at_origin'] = sum(1 for h in with_consume if h['ev'][1]['complete'])
     ctx.cov['bytes_relayed'] = sum(h['ev'][1]['len'] for h in with_consume)
